@@ -245,4 +245,132 @@ theorem checkRank_sound {p : Prog} {r : Array Nat} (hck : checkRank p r = true) 
   have h2 := rank_reach hck hr
   omega
 
+
+/-! ### stack-sensitive certificate -/
+
+theorem stepAt_next_lt {p : Prog} {a : Ans} {h h' : Head} (hs : stepAt p a h = .next h') : h.pos < p.length := by
+  unfold stepAt at hs
+  cases hp : p[h.pos]? with
+  | none => simp [hp] at hs
+  | some e => rcases List.getElem?_eq_some_iff.mp hp with ⟨hl, _⟩; exact hl
+
+/-- the `stopping` flag of the head does not influence where `slide` goes -/
+theorem stepAt_proj {p : Prog} {a : Ans} {h h' : Head} (hs : stepAt p a h = .next h') :
+    ∃ h'', stepAt p a { pos := h.pos, cstack := h.cstack } = .next h'' ∧ h''.pos = h'.pos ∧ h''.cstack = h'.cstack := by
+  unfold stepAt at hs ⊢
+  simp only at hs ⊢
+  cases hp : p[h.pos]? with
+  | none => simp [hp] at hs
+  | some e =>
+    simp only [hp] at hs ⊢
+    cases e with
+    | wait evals => simp only at hs; split at hs <;> simp at hs
+    | step evals =>
+      simp only at hs ⊢
+      split at hs
+      · simp at hs
+      · rename_i hc; injection hs with hs; subst hs; simp [hc]
+    | restartLabel => simp only at hs ⊢; injection hs with hs; subst hs; exact ⟨_, rfl, rfl, rfl⟩
+    | goto target =>
+      cases a <;> cases target <;> simp only at hs ⊢ <;>
+        first
+        | (injection hs with hs; subst hs; exact ⟨_, rfl, rfl, rfl⟩)
+        | (simp at hs)
+    | jump target =>
+      cases target <;> simp only at hs ⊢ <;> (injection hs with hs; subst hs; exact ⟨_, rfl, rfl, rfl⟩)
+    | ret =>
+      simp only at hs ⊢
+      split at hs
+      · simp at hs
+      · rename_i hc; injection hs with hs; subst hs; simp [hc]
+    | abort =>
+      simp only at hs ⊢
+      cases hl : h.cstack.getLast? with
+      | none => simp only [hl] at hs ⊢; injection hs with hs; subst hs; exact ⟨_, rfl, rfl, rfl⟩
+      | some t => simp only [hl] at hs ⊢; injection hs with hs; subst hs; exact ⟨_, rfl, rfl, rfl⟩
+    | catchPush t => simp only at hs ⊢; injection hs with hs; subst hs; exact ⟨_, rfl, rfl, rfl⟩
+    | catchPop =>
+      simp only at hs ⊢
+      cases hcs : h.cstack with
+      | nil => simp [hcs] at hs
+      | cons c cs => simp only [hcs] at hs ⊢; injection hs with hs; subst hs; exact ⟨_, rfl, rfl, rfl⟩
+    | fork ts => simp at hs
+    | merge => simp at hs
+    | waitHeads =>
+      simp only at hs ⊢
+      split at hs
+      · rename_i hc; injection hs with hs; subst hs; simp [hc]
+      · simp at hs
+
+theorem mem_contMoves {p : Prog} {a : Ans} {h h' : Head} (hs : stepAt p a h = .next h') :
+    (h'.pos, h'.cstack) ∈ contMoves p h.pos h.cstack := by
+  obtain ⟨h'', h1, h2, h3⟩ := stepAt_proj hs
+  unfold contMoves
+  apply List.mem_append_left
+  rw [List.mem_filterMap]
+  refine ⟨a, by cases a <;> simp, ?_⟩
+  rw [h1]
+  simp only [h2, h3]
+
+theorem certOk_move {p : Prog} {c : Cert} (hc : certOk p c = true) {u : Nat} {s : List Nat} (hu : u < p.length)
+    (ha : c.allowed u s = true) {m : Nat × List Nat} (hm : m ∈ contMoves p u s) :
+    c.allowed m.1 m.2 = true ∧ c.rank.getD m.1 0 < c.rank.getD u 0 := by
+  unfold certOk at hc
+  simp only [Bool.and_eq_true, List.all_eq_true] at hc
+  have h1 := hc.1.2 u (List.mem_range.mpr hu) s (by
+    unfold Cert.allowed at ha
+    exact List.contains_iff_mem.mp ha)
+  have h2 := h1.1 m hm
+  simpa using h2
+
+theorem certOk_rank_le {p : Prog} {c : Cert} (hc : certOk p c = true) {u : Nat} (hu : u ≤ p.length) :
+    c.rank.getD u 0 ≤ p.length := by
+  unfold certOk at hc
+  simp only [Bool.and_eq_true, List.all_eq_true] at hc
+  have := hc.2 u (List.mem_range.mpr (Nat.lt_succ_of_le hu))
+  simpa using this
+
+/-- with a verified certificate, `slide` started in an allowed state stops as soon as the fuel exceeds the rank -/
+theorem slide_stops_ranked {p : Prog} {c : Cert} (hc : certOk p c = true) {o : Nat → Ans} :
+    ∀ (fuel k : Nat) (h : Head), c.allowed h.pos h.cstack = true → c.rank.getD h.pos 0 < fuel →
+      (slide p o fuel k h).stop ≠ none := by
+  intro fuel
+  induction fuel with
+  | zero => intro k h _ hr; omega
+  | succ n ih =>
+    intro k h ha hr
+    unfold slide
+    cases hs : stepAt p (o k) h with
+    | stop s => simp
+    | next h' =>
+      simp only
+      have hm := mem_contMoves hs
+      obtain ⟨ha', hlt⟩ := certOk_move hc (stepAt_next_lt hs) ha hm
+      exact ih (k + 1) h' ha' (by simp only at hlt; omega)
+
+
+theorem slide_final_allowed {p : Prog} {c : Cert} (hc : certOk p c = true) {o : Nat → Ans} :
+    ∀ (fuel k : Nat) (h : Head), c.allowed h.pos h.cstack = true →
+      c.allowed (slide p o fuel k h).final.pos (slide p o fuel k h).final.cstack = true := by
+  intro fuel
+  induction fuel with
+  | zero => intro k h ha; simpa [slide] using ha
+  | succ n ih =>
+    intro k h ha
+    unfold slide
+    cases hs : stepAt p (o k) h with
+    | stop s => simpa using ha
+    | next h' =>
+      simp only
+      exact ih (k + 1) h' (certOk_move hc (stepAt_next_lt hs) ha (mem_contMoves hs)).1
+
+theorem certOk_resume {p : Prog} {c : Cert} (hc : certOk p c = true) {u : Nat} {s : List Nat} (hu : u < p.length)
+    (ha : c.allowed u s = true) {m : Nat × List Nat} (hm : m ∈ resumeMoves p u s) : c.allowed m.1 m.2 = true := by
+  unfold certOk at hc
+  simp only [Bool.and_eq_true, List.all_eq_true] at hc
+  have h1 := hc.1.2 u (List.mem_range.mpr hu) s (by
+    unfold Cert.allowed at ha
+    exact List.contains_iff_mem.mp ha)
+  exact h1.2 m hm
+
 end NemoVerif.SlideGraph
